@@ -115,9 +115,23 @@ def corpus_traces_parallel(ctx, procs=12):
     return out
 
 
+def private_kmodel(ctx):
+    """Other checks rebuild `kmodel` (one shared lean_exe) while this one is judging traces for many
+    minutes; work from a private copy taken under the lake lock."""
+    import shutil
+    dst = ctx.work / "kmodel"
+    try:
+        with vlib.Lock("lake"):
+            shutil.copy2(vlib.KMODEL, dst)
+        vlib.KMODEL = dst
+    except OSError as e:
+        ctx.log(f"could not copy the model driver: {e}")
+
+
 def run(ctx, prop_module, mode, assumptions):
     vlib.translate(ctx, TRANSLATE)
     vlib.prove(ctx, [prop_module])
+    private_kmodel(ctx)
     found = False
     stream = f"syskeys {mode}"
     if vlib.build_harness(ctx, ["system"]):
@@ -139,6 +153,7 @@ def replay(ctx, data, prop_module, mode):
     vlib.translate(ctx, TRANSLATE)
     vlib.build_harness(ctx, ["system"])
     vlib.prove(ctx, [prop_module])
+    private_kmodel(ctx)
     if "ops" not in data:
         print("replay: no concrete input in this record (a proof obligation / translation no longer checks):")
         print("  " + "\n  ".join(data.get("failed_obligations", [])))
